@@ -659,6 +659,15 @@ func groupWide() {
 	}
 }
 
+// a struct whose fixed-size fields add up to more than 65535 encoded bytes (6100 x i64: 67100): sums kept in
+// 16 bits wrap (P4).  Used by the size stream only (group `huge` is not part of the default type list).
+func groupHuge() {
+	s := newStruct("huge")
+	for i := 0; i < 6100; i++ {
+		s.add(fmt.Sprintf("F%d", i+1), prim("int64"), i+1, "default")
+	}
+}
+
 // by-value structs whose only field is a by-value struct that is itself pointer-shaped (stored
 // directly in the interface word, at any wrapping depth)
 func groupWrapped() {
@@ -1035,6 +1044,13 @@ func groupInvalid() {
 	bad(func(s *Struct) { s.add("X", list(list(ptr(prim("int64")))), 2, "default") })
 	bad(func(s *Struct) { s.add("X", ptr(prim("int32")), 2, "default") })  // non-optional scalar pointer
 	bad(func(s *Struct) { s.add("X", ptr(prim("string")), 2, "required") })
+	// … of every pointee kind and both non-optional requirednesses (P2 let `*[]byte` through)
+	for _, t := range []*Ty{prim("bool"), prim("int8"), prim("int16"), prim("int64"), prim("float64"), binary(), named("int64", "E1")} {
+		t := t
+		bad(func(s *Struct) { s.add("X", ptr(t), 2, "default") })
+		bad(func(s *Struct) { s.add("X", ptr(t), 2, "required") })
+	}
+	raw("X", ptr(binary()), `thrift:"x,2"`)
 	// pointers to pointers or to containers
 	bad(func(s *Struct) { s.add("X", ptr(ptr(sref(leaf))), 2, "optional") })
 	bad(func(s *Struct) { s.add("X", ptr(ptr(prim("int32"))), 2, "optional") })
@@ -1570,6 +1586,7 @@ func main() {
 	groupRandom(*nrand, *depth)
 	groupBoom(*seed, 4, 5)
 	groupAnon()
+	groupHuge()
 	emit(*out)
 	fmt.Printf("gentypes: %d structs\n", len(structs))
 }
